@@ -204,7 +204,11 @@ impl<'ctx> Ledger<'ctx> {
                 target,
             }) => {
                 let mut converted = Balance::default();
-                for (account, original_amount) in balance.iter() {
+                // HashMap iteration order is not stable, sort by the account name
+                // so that the reported error (if any) is always the same one.
+                let mut accounts: Vec<_> = balance.iter().collect();
+                accounts.sort_unstable_by_key(|(account, _)| account.as_str());
+                for (account, original_amount) in accounts {
                     converted.add_amount(
                         *account,
                         price_db::convert_amount(
